@@ -385,9 +385,37 @@ def clean_tree(xml: str):
     return D.lxml_tree_json(root)
 
 
+def union_documents(rng, tier, n_uni, per_uni):
+    """documents of universes whose Root has element fields typed as a union of model classes, with nested
+    attributed children (UnionNode records the events and replays them for every candidate class)"""
+    for _ in range(n_uni):
+        desc, build = D.union_universe(rng)
+        try:
+            u = B.Universe(desc)
+            ctx = u.export_ctx()
+        except Exception:  # noqa: BLE001
+            continue
+        _UNIS[u.modname] = u
+        for _ in range(per_uni):
+            try:
+                xml = G.real_serialize(u, build(u, rng), writer=rng.choice(["native", "lxml"]))
+                tree = G.xml_tree(xml.encode())
+            except Exception:  # noqa: BLE001
+                continue
+            yield u, ctx, desc, tree, "valid"
+            if rng.random() < 0.5:
+                kind, t2 = G.mutate_tree(rng, tree)
+                yield u, ctx, desc, t2, kind
+
+
+def all_documents(rng, tier):
+    yield from union_documents(rng, tier, n_cases(tier, 20, 150), 3)
+    yield from documents(rng, tier, n_cases(tier, 60, 450), 3, mutate=True)
+
+
 def gen_handlers(rng, tier, for_corr=False):
     fresh_registry()
-    for u, ctx, desc, tree, kind in documents(rng, tier, n_cases(tier, 60, 450), 3, mutate=True):
+    for u, ctx, desc, tree, kind in all_documents(rng, tier):
         lay = rng.random()
         try:
             d = D.plain_dtree(tree) if lay < 0.3 else D.layout(rng, tree, allow_default=default_ok(desc, tree))
